@@ -11,6 +11,20 @@ ERRORS = {
     "unknown-attribute": "module M\n[nosuchattribute] struct S%d {}\n",
     "unresolved-type": "module M\nstruct S%d { a: Nope }\n",
     "cycle": "module M\nstruct S%d { a: S%d }\n",
+    # every error of every phase, in its less usual forms: cycles through optional, sequence and dictionary types and through enumerators, alias and inheritance loops
+    "cycle-optional": "module M\nstruct S%d { v: int32, next: S%d? }\n",
+    "cycle-sequence-of-optional": "module M\nstruct A%d { bs: Sequence<B%d?> }\nstruct B%d { a: A%d? }\n",
+    "cycle-dictionary-value": "module M\nstruct S%d { m: Dictionary<string, S%d?> }\n",
+    "cycle-enumerator": "module M\nunchecked enum E%d { A(e: E%d?) }\n",
+    "alias-loop": "module M\ntypealias A%d = B%d\ntypealias B%d = A%d\n",
+    "inheritance-loop": "module M\ninterface I%d : J%d {}\ninterface J%d : I%d {}\n",
+    "unresolved-base": "module M\ninterface I%d : Nope {}\n",
+    "duplicate-enumerator-value": "module M\nenum E%d : uint8 { A = 1, B = 1 }\n",
+    "dictionary-key": "module M\nstruct S%d { d: Dictionary<float32, bool> }\n",
+    "returns-key-in-sequence": "module M\ninterface I%d { op() -> Sequence<Dictionary<float64, bool>> }\n",
+    "shadowed-operation": "module M\ninterface B%d { op() }\ninterface D%d : B%d { op() }\n",
+    "attribute-arguments": "module M\n[compress(Nope)] interface I%d { [compress(Nope)] op() }\n",
+    "bad-allow": "module M\n[allow(NoSuchLint)] struct S%d {}\n",
     "redefinition": "module M\nstruct S%d {}\nstruct S%d {}\n",
     "rule": "module M\nstruct S%d { tag(1) a: int32 }\n",
     "preprocessor": "#if\nmodule M\nstruct S%d {}\n",
@@ -97,7 +111,7 @@ def run(ck):
         metas.append({"kind": kind, "what": what + ("+duplicate-file" if dup else ""), "has_err": has_err, "dry": dry, "gens": gens, "gfail": gfail, "outdir": outdir, "files": files, "allow": allow, "dup": dup})
     o = dc.run_all(lines)
     ck.stream("driver", description="the real slicec binary in a scratch directory: programs that are clean / warnings only (deprecated use, broken link, misplaced tag) / one error of each phase "
-              "(missing file, non-.slice source, directory as source, preprocessor, syntax, file without module, unknown attribute, unresolved type, cycle, redefinition, rule violation) in any one of 1-3 files "
+              "(missing file, non-.slice source, directory as source, preprocessor, syntax, file without module, unknown attribute, unresolved type or base, cycles through plain, optional, sequence, dictionary and enumerator fields, alias and inheritance loops, redefinition, rule violations of several validators, attribute arguments) in any one of 1-3 files "
               "(sources and references) x 0..3 generators (reply-writing, or failing: exit 1, exit 255, killed by a signal, missing executable, stderr output) x suppressions written in the files themselves ([[allow(All)]] and others) x the same source listed twice (DuplicateFile warning) x --dry-run x -A lists x output directory. Compared with the driver model: which generators were started, which files appeared, the exit status, "
               "the number of error diagnostics on stderr (JSON).")
     mlines = []
